@@ -10,6 +10,11 @@ Tie to the source:
   from_matchline / importmatch.parse_matchline fields vs parse_line; second-round text.
 * DIRECT ORACLE in Python on the implementation alone (same kind, equal fields, identical
   second text, to_v1 keeps kind and musical content, exact duration addition).
+* DISPATCH (round 2): the regular expressions as written, the order of FROM_MATCHLINE_METHODS, the decoders
+  and the version patterns are reflected into Gen/C07_Parsers.v (Model/C07_Disp.v: backtracking matcher with
+  re.search semantics, ordered dispatch, get_version, load_matchfile; Model/C07_Up.v: to_v1 of info / meta
+  lines); correspondence on every generated line, on lines with kind identifiers inside their identifiers,
+  on written files and on version texts.
 """
 import contextlib
 import io
@@ -427,6 +432,26 @@ V1_KINDS = ["snote", "note", "snote_note", "deletion", "insertion", "ornament", 
 FILE_LEVEL_EXCLUDED = ("snote", "note", "stime", "ptime")  # parts of lines, not lines of a file
 
 
+# what the statement quantifies over, written down independently of the tables of the library (which the
+# catalogue below is read from): a kind of line or an attribute that disappears from a version is reported
+OLD_INFO_ATTRS = ["approximateTempo", "audioFileName", "audioFilePath", "audioFirstNote", "audioLastNote", "beatSubDivision", "beatSubdivision",
+                  "composer", "keySignature", "matchFileVersion", "mergedFrom", "midiClockRate", "midiClockUnits", "midiFileName", "midiFilePath",
+                  "midiFilename", "partSequence", "performer", "piece", "scoreFileName", "scoreFilePath", "subtitle", "tempoIndication", "timeSignature"]
+V1_INFO_ATTRS = ["approximateTempo", "audioFileName", "audioFilePath", "audioFirstNote", "audioLastNote", "composer", "matchFileVersion", "midiClockRate",
+                 "midiClockUnits", "midiFileName", "midiFilePath", "performer", "piece", "scoreFileName", "scoreFilePath", "subtitle"]
+
+
+def expected_catalogue():
+    out = []
+    for v in V0S:
+        out += [(k, v) for k in V0_KINDS] + [("info:" + a, v) for a in OLD_INFO_ATTRS]
+        if v >= (0, 3, 0):
+            out += [("meta:keySignature", v), ("meta:timeSignature", v)]
+    out += [(k, V1) for k in V1_KINDS] + [("info:" + a, V1) for a in V1_INFO_ATTRS]
+    out += [("scoreprop:" + a, V1) for a in ("beatSubDivision", "directions", "keySignature", "tempoIndication", "timeSignature")]
+    return out
+
+
 def catalogue():
     """[(kind, version)] for every line class x version, info/scoreprop/meta once per attribute."""
     L0, L1, U, B, IM = mods()
@@ -597,6 +622,250 @@ def tabulate_keys():
     return rows
 
 
+# ----------------------------------------------------------------------------
+# reflection of the dispatch: the regular expressions as they are (not narrowed to the shape of
+# the line), how every from_matchline method of the ordered lists combines them, the decoder of
+# every group -> Gen/C07_Parsers.v (Model/C07_Disp.v)
+
+
+def _parse_class(pat, j):
+    """pat[j] == '[': (kind, chars, index after the closing bracket)"""
+    k = j + 1
+    neg = pat[k] == "^"
+    if neg:
+        k += 1
+    chars = ""
+    while pat[k] != "]":
+        if pat[k] == "\\":
+            if pat[k + 1] == "d":
+                chars += "0123456789"
+            elif pat[k + 1].isalnum():
+                raise ValueError("unsupported escape in a class of %r at %d" % (pat, k))
+            else:
+                chars += pat[k + 1]
+            k += 2
+        elif pat[k + 1] == "-" and pat[k + 2] != "]":
+            chars += "".join(chr(c) for c in range(ord(pat[k]), ord(pat[k + 2]) + 1))
+            k += 3
+        else:
+            chars += pat[k]
+            k += 1
+    return ("not" if neg else "in"), chars, k + 1
+
+
+def regex_items(pat):
+    """(anchored, items, names) of a pattern of the sub-language the line patterns are written in:
+    literals (escapes resolved), '.', capturing groups (?P<n>X+) / (?P<n>X*) with X = '.', [..] or
+    [^..]; a leading '^'.  items: ("lit", s) | ("dot",) | ("grp", kind, chars, minlen).  Anything
+    else -> ValueError (fail closed)."""
+    i, n = 0, len(pat)
+    anchored = False
+    items, names = [], []
+
+    def lit(ch):
+        if items and items[-1][0] == "lit":
+            items[-1] = ("lit", items[-1][1] + ch)
+        else:
+            items.append(("lit", ch))
+
+    if pat.startswith("^"):
+        anchored, i = True, 1
+    while i < n:
+        ch = pat[i]
+        if ch == "\\":
+            if i + 1 >= n or pat[i + 1].isalnum():
+                raise ValueError("unsupported escape in %r at %d" % (pat, i))
+            lit(pat[i + 1])
+            i += 2
+        elif pat.startswith("(?P<", i):
+            j = pat.index(">", i)
+            names.append(pat[i + 4:j])
+            j += 1
+            if pat[j] == ".":
+                kind, chars, j = "any", "", j + 1
+            elif pat[j] == "[":
+                kind, chars, j = _parse_class(pat, j)
+            elif pat.startswith("\\d", j):
+                kind, chars, j = "in", "0123456789", j + 2
+            else:
+                raise ValueError("unsupported group body in %r at %d" % (pat, j))
+            if pat[j] not in "+*" or pat[j + 1:j + 2] != ")":
+                raise ValueError("unsupported quantifier in %r at %d" % (pat, j))
+            items.append(("grp", kind, chars, 1 if pat[j] == "+" else 0))
+            i = j + 2
+        elif ch == ".":
+            items.append(("dot",))
+            i += 1
+        elif ch in "()[]{}*+?|$^":
+            raise ValueError("unsupported construct %r in %r at %d" % (ch, pat, i))
+        else:
+            lit(ch)
+            i += 1
+    return anchored, items, names
+
+
+def c_rpat(items):
+    out = []
+    for it in items:
+        if it[0] == "lit":
+            out.append("RLit %s" % cstr(it[1]))
+        elif it[0] == "dot":
+            out.append("RDot")
+        else:
+            _, kind, chars, minlen = it
+            cl = "RAnyC" if kind == "any" else "(%s %s)" % ("RNot" if kind == "not" else "RIn", cstr(chars))
+            out.append("RGrp %s %d" % (cl, minlen))
+    return clist(out)
+
+
+_BOOT = {}
+
+
+def boot(kind, ver):
+    if (kind, ver) not in _BOOT:
+        _BOOT[(kind, ver)] = bootstrap(kind, ver)
+    return _BOOT[(kind, ver)]
+
+
+def kinds_of_version(ver):
+    return [k for k, v in catalogue() if v == ver]
+
+
+def kind_of_object(p, ver):
+    """the catalogue kind of a line object (None: a class that is no line of this version)"""
+    base = None
+    for k in kinds_of_version(ver):
+        b = k.partition(":")[0]
+        if b in FILE_LEVEL_EXCLUDED:
+            continue
+        if type(boot(k, ver)) is type(p):
+            if ":" in k:
+                if k.partition(":")[2] == getattr(p, "Attribute", None):
+                    return k
+            else:
+                return k
+    return base
+
+
+def parser_spec(method, ver):
+    """One from_matchline method of an ordered list, for format version ver:
+    (class name, [step], group owners/names in step order, kinds read by it).
+    step: ("search", pattern) | ("match", pattern) | ("search_then", pattern, pattern).
+    The way a class combines its patterns is written here by hand from prepare_kwargs_from_matchline /
+    from_matchline; the patterns themselves are taken from the live classes and objects."""
+    L0, L1, U, B, IM = mods()
+    cls = method.__self__
+    kinds = [k for k in kinds_of_version(ver) if k.partition(":")[0] not in FILE_LEVEL_EXCLUDED and type(boot(k, ver)) is cls]
+    if not kinds:  # the class has no line of this version (MatchMeta before 0.3.0): its method always raises
+        return cls.__name__, [], [], []
+    o = boot(kinds[0], ver)
+
+    def names(pattern, owner):
+        return [(owner, nm) for nm in regex_items(pattern.pattern)[2]]
+
+    if issubclass(cls, B.BaseSnoteNoteLine):
+        steps = [("search", o.snote.pattern), ("search", o.note.pattern)]
+        groups = names(o.snote.pattern, "snote") + names(o.note.pattern, "note")
+    elif issubclass(cls, B.BaseDeletionLine):
+        steps = [("search_then", o.snote.pattern, cls.identifier_pattern)]
+        groups = names(o.snote.pattern, "snote")
+    elif issubclass(cls, B.BaseInsertionLine):
+        steps = [("match", cls.identifier_pattern), ("search", o.note.pattern)]
+        groups = names(o.note.pattern, "note")
+    elif issubclass(cls, B.BaseOrnamentLine):
+        steps = [("search", cls.ornament_pattern), ("search", o.note.pattern)]
+        groups = names(cls.ornament_pattern, None) + names(o.note.pattern, "note")
+    elif issubclass(cls, B.BaseStimePtimeLine):
+        steps = [("search", o.stime.pattern), ("search", o.ptime.pattern)]
+        groups = names(o.stime.pattern, "stime") + names(o.ptime.pattern, "ptime")
+    else:  # one pattern: pedals, info, meta, scoreprop, section
+        steps = [("search", o.pattern)]
+        groups = names(o.pattern, None)
+    for st in steps:
+        for p in st[1:]:
+            if regex_items(p.pattern)[0]:
+                raise ValueError("anchored pattern %r in %s" % (p.pattern, cls.__name__))
+    return cls.__name__, steps, groups, kinds
+
+
+def c_step(st):
+    tag = {"search": "PSearch", "match": "PMatch", "search_then": "PSearchThen"}[st[0]]
+    return "%s %s" % (tag, " ".join(c_rpat(regex_items(p.pattern)[1]) for p in st[1:]))
+
+
+def group_codecs(kind, ver, groups):
+    """codecs of the groups of a parser, for the fields of line kind `kind`"""
+    nm, elems, fields = schemas()[(kind, ver)]
+    by = {(f.owner, f.name): f.codec for f in fields}
+    return [by[g] for g in groups]
+
+
+def parser_lists():
+    """{ver: [(class name, steps, groups, kinds)]} in the order of FROM_MATCHLINE_METHODS"""
+    L0, L1, U, B, IM = mods()
+    out = {}
+    for ver in V0S + [V1]:
+        methods = IM.FROM_MATCHLINE_METHODSV1 if ver == V1 else IM.FROM_MATCHLINE_METHODSV0
+        out[ver] = [parser_spec(m, ver) for m in methods]
+    return out
+
+
+def version_infos():
+    """get_version: the info parsers it tries, in its order: (pattern, version of the attribute table,
+    attributes whose interpreter gives a Version)"""
+    L0, L1, U, B, IM = mods()
+    import inspect
+    out = []
+    for cls, tabs in ((IM.MatchInfoV1, L1.INFO_LINE), (IM.MatchInfoV0, L0.INFO_LINE)):
+        dv = inspect.signature(cls.from_matchline).parameters["version"].default
+        vattrs = sorted(a for a, (interp, fmt, ty) in tabs[dv].items() if ty is U.Version)
+        out.append((cls.pattern, tuple(dv), vattrs))
+    return out
+
+
+def gen_parsers():
+    L0, L1, U, B, IM = mods()
+    L = ["(* GENERATED by harness/props/c07.py from the working tree -- do not edit *)",
+         "From Coq Require Import ZArith List String.", "From PV Require Import Model.C07 Model.C07_Disp Model.C07_Up.",
+         "Import ListNotations.", "Open Scope string_scope.", "Open Scope Z_scope.", ""]
+    PL = parser_lists()
+    names = []
+    for ver, plist in sorted(PL.items()):
+        rows = []
+        for cname, steps, groups, kinds in plist:
+            if not kinds:
+                cod = "(PByAttr [])"
+            elif len(kinds) == 1 and ":" not in kinds[0]:
+                cod = "(PFixed %s)" % clist(group_codecs(kinds[0], ver, groups))
+            else:
+                cod = "(PByAttr %s)" % clist("(%s, %s)" % (cstr(k.partition(":")[2]), clist(group_codecs(k, ver, groups))) for k in kinds)
+            rows.append("mk_lparser %s %s %s" % (cstr(cname), clist(c_step(s) for s in steps), cod))
+        L.append("Definition parsers_%s : list lparser := [\n  %s\n]." % (vname(ver), ";\n  ".join(rows)))
+        names.append((ver, "parsers_%s" % vname(ver)))
+    L.append("Definition parser_table : list (version * list lparser) := %s." % clist("((%s, %s, %s), %s)" % (cz(v[0]), cz(v[1]), cz(v[2]), nm) for v, nm in names))
+    a1, vp, _ = regex_items(U.version_pattern.pattern)
+    a2, ovp, _ = regex_items(U.old_version_pattern.pattern)
+    if not (a1 and a2):
+        raise ValueError("the version patterns are no longer anchored at the start")
+    L.append("Definition version_pat : rpat := %s." % c_rpat(vp))
+    L.append("Definition old_version_pat : rpat := %s." % c_rpat(ovp))
+    VI = version_infos()
+    L.append("Definition version_infos : list (rpat * list string) := %s." % clist(
+        "(%s, %s)" % (c_rpat(regex_items(p.pattern)[1]), clist(cstr(a) for a in va)) for p, dv, va in VI))
+    V = U.Version(*V1)
+    L.append("Definition up_tabs : uptabs := mk_uptabs %s %s %s %s." % (
+        clist(cstr(a) for a in L1.INFO_LINE[V]), clist(cstr(a) for a in L1.SCOREPROP_LINE[V]),
+        clist("(%s, %s)" % (cstr(a), cstr(b)) for a, b in sorted(L1.INFO_ATTRIBUTE_EQUIVALENCES.items())),
+        clist("(%s, %s)" % (cstr(a), cstr(b)) for a, b in sorted(L1.SCOREPROP_ATTRIBUTE_EQUIVALENCES.items()))))
+    L.append("(* the info and meta attributes of the versions before 1.0.0 *)")
+    L.append("Definition old_info_attrs : list (version * list string) := %s." % clist(
+        "(%s, %s)" % (c_version(v), clist(cstr(a) for a in L0.INFO_LINE[U.Version(*v)])) for v in V0S))
+    L.append("Definition old_meta_attrs : list (version * list string) := %s." % clist(
+        "(%s, %s)" % (c_version(v), clist(cstr(a) for a in L0.META_LINE.get(U.Version(*v), {}))) for v in V0S))
+    core.write_gen("C07_Parsers", "\n".join(L) + "\n")
+    return PL
+
+
 def gen():
     core.setup_import_path()
     S = schemas()
@@ -615,7 +884,12 @@ def gen():
         names.append(nm)
     L.append("Definition all_schemas : list (string * schema) := [\n  %s\n]." % ";\n  ".join("(%s, %s)" % (cstr(n), n) for n in names))
     core.write_gen("C07_Schemas", "\n".join(L) + "\n")
+    global _PARSERS
+    _PARSERS = gen_parsers()
     return S, rows
+
+
+_PARSERS = None
 
 
 # ----------------------------------------------------------------------------
@@ -626,8 +900,25 @@ WORDS = ["lento", "ma", "non", "troppo", "allegro", "assai", "beat", "downbeat",
 ID_CHARS = string.ascii_letters + string.digits + "-_#."
 
 
+# texts by which the parsers of the ordered lists recognise their kind of line, and other words of the
+# format: inside an identifier they may not change what a line is read as
+MARKERS = ["insertion-", "hammer_bounce-", "trailing_played_note-", "-deletion.", "-trailing_score_note.", "-no_played_note.",
+           "note", "snote", "-note", "trill", "ornament", "sustain", "soft", "info", "meta", "stime", "ptime", "deletion"]
+
+
+def g_marker_ident(rng, m=None):
+    m = m or rng.choice(MARKERS)
+    pre = rng.choice(["", "", "n", "x", str(rng.randint(1, 99))])
+    post = rng.choice(["", "", str(rng.randint(1, 99)), "b"])
+    if pre == "" and m[0] in "-":
+        pre = rng.choice(["a", "n1", "7"])
+    return pre + m + post
+
+
 def g_ident(rng):
     r = rng.random()
+    if r < 0.06:
+        return g_marker_ident(rng)
     if r < 0.4:
         return "n%d" % rng.randint(0, 2000)
     if r < 0.55:
@@ -908,6 +1199,8 @@ def run_line(ctx, spec, terms, kept):
     if kind.partition(":")[0] not in FILE_LEVEL_EXCLUDED:
         methods = IM.FROM_MATCHLINE_METHODSV1 if V >= U.Version(1, 0, 0) else IM.FROM_MATCHLINE_METHODSV0
         parsers.append(("file", lambda: IM.parse_matchline(text, methods, V)))
+        if ":" not in kind or "marker" in spec or spec.get("nth", 0) % 4 == 0 or ctx.tier != "quick":
+            dispatch_observation(ctx, ver, text, spec)  # (quick: every 4th line of an info / meta / scoreprop attribute)
     parsed = None
     for pname, pf in parsers:
         try:
@@ -966,10 +1259,315 @@ def run_line(ctx, spec, terms, kept):
     except Mismatch as e:
         ctx.violation("%s %s: parsed field has the wrong shape: %s (text %r)" % (kind, ver, e, text), dict(spec, what="shape", text=text))
         return obj
+    if "marker" in spec:  # these lines are about the dispatch (disp_check); the codec model sees the other lines
+        return obj
     terms.append([nm, clist(vin), cstr(text), clist(vout), None])  # the texts after the read-only uses are filled in by run_uses
     kept.append(dict(spec, text=text))
     obj._c07_case = (terms[-1], parsed, text)
     return obj
+
+
+# ----------------------------------------------------------------------------
+# line dispatch and version detection (Model/C07_Disp.v)
+
+DISP_TERMS, DISP_KEPT = [], []
+
+
+def c_version(v):
+    return "(%s, %s, %s)" % (cz(v[0]), cz(v[1]), cz(v[2]))
+
+
+def observe_dispatch(ver, text):
+    """What importmatch.parse_matchline does with a text: None, or (index of the method of the ordered
+    list whose class the returned object has, the object)."""
+    L0, L1, U, B, IM = mods()
+    V = U.Version(*ver)
+    methods = IM.FROM_MATCHLINE_METHODSV1 if V >= U.Version(1, 0, 0) else IM.FROM_MATCHLINE_METHODSV0
+    p = quiet_call(IM.parse_matchline, text, methods, V)
+    if p is None:
+        return None
+    classes = [m.__self__ for m in methods]
+    return classes.index(type(p)), p
+
+
+def dispatch_observation(ctx, ver, text, rep):
+    """Append the Coq case (version, text, observed method index and field values in the order of the
+    groups of that method's patterns) for disp_check."""
+    try:
+        obs = observe_dispatch(ver, text)
+        if obs is None:
+            term = "None"
+        else:
+            idx, p = obs
+            cname, steps, groups, kinds = _PARSERS[ver][idx]
+            k2 = kind_of_object(p, ver)
+            if k2 is None:
+                raise Mismatch("object of class %s is no line of %s" % (type(p).__name__, ver))
+            cods = group_codecs(k2, ver, groups)
+            for (o, n) in groups:  # float64 bound_integers near a tie: the exact-rational model is not applicable (as for check_case)
+                for fo in frac_objs(getattr(sub_of(p, o), n)):
+                    log = []
+                    if fo.add_components is not None:
+                        ref_parse(str(fo), log)
+                    if py_bound_risky(int(fo.numerator), int(fo.denominator)) or any(e[0] == "hidden" or py_bound_risky(e[1], e[2]) for e in log):
+                        raise Mismatch("bound near-tie")
+            vals = [c_value(getattr(sub_of(p, o), n), c, True) for (o, n), c in zip(groups, cods)]
+            term = "(Some (%s, %s))" % (cnat(idx), clist(vals))
+    except Mismatch as e:
+        ctx.count("dispatch:model_skipped(%s)" % ("bound near-tie" if "near-tie" in str(e) else "value of unexpected shape"))
+        return
+    except Exception as e:
+        ctx.count("dispatch:observation_raises")
+        ctx.violation("parse_matchline raises on %r: %r" % (text, e), dict(rep, what="dispatch", text=text))
+        return
+    DISP_TERMS.append("(%s, %s, %s)" % (c_version(ver), cstr(text), term))
+    DISP_KEPT.append(dict(rep, what="dispatch_model", text=text))
+
+
+def id_fields(kind, ver):
+    nm, elems, fields = schemas()[(kind, ver)]
+    return [(f.owner, f.name) for f in fields if f.codec == "CStr" and f.name in ("Anchor", "Id")]
+
+
+def marker_specs(rng, thorough):
+    """Small-scope sweep: every line kind x format version (file level) x every text by which SOME parser
+    recognises its kind of line (and other words of the format), put inside an identifier of the line:
+    one identifier field chosen at random (quick) or each of them in turn (thorough)."""
+    out = []
+    for kind, ver in sorted(schemas().keys()):
+        if kind.partition(":")[0] in FILE_LEVEL_EXCLUDED:
+            continue
+        ids = id_fields(kind, ver)
+        if not ids:
+            continue
+        for m in (MARKERS if thorough else MARKERS[:11]):
+            for target in (ids if thorough else [rng.choice(ids)]):
+                spec = g_line(rng, kind, ver)
+                for fld in spec["fields"]:
+                    if (fld[0], fld[1]) == target:
+                        fld[2] = ["str", g_marker_ident(rng, m)]
+                spec["marker"] = m
+                out.append(spec)
+    return out
+
+
+def expected_lines(objs):
+    """What load_matchfile keeps of a file: the first occurrence of every distinct non-empty line."""
+    seen, out = set(), []
+    for o in objs:
+        if o is None:
+            continue
+        t = o.matchline
+        if t not in seen:
+            seen.add(t)
+            out.append(o)
+    return out
+
+
+def run_files(ctx, good, n_per_version):
+    """Whole files: a version line (0.1.0 also without), lines of every kind of that version with unique
+    note ids, some lines twice, some empty lines; written with MatchFile.write, read with load_matchfile:
+    version detected from the first line, every distinct line back in order with its kind and text."""
+    import os
+    import warnings
+    L0, L1, U, B, IM = mods()
+    rng = ctx.rng
+    terms, kept = [], []
+    by_ver = {}
+    for spec in good:
+        if spec["kind"].partition(":")[0] not in FILE_LEVEL_EXCLUDED and spec["kind"] != "info:matchFileVersion":
+            by_ver.setdefault(tuple(spec["ver"]), []).append(spec)
+    for ver in V0S + [V1]:
+        pool = by_ver.get(ver, [])
+        if not pool:
+            continue
+        V = U.Version(*ver)
+        for fno in range(n_per_version):
+            chosen = [rng.choice(pool) for _ in range(rng.randint(6, 18))]
+            with_version_line = not (ver == (0, 1, 0) and fno % 2 == 1)
+            specs = []
+            if with_version_line:
+                specs.append({"kind": "info:matchFileVersion", "ver": list(ver), "fields": [[None, "Attribute", ["str", "matchFileVersion"]], [None, "Value", ["version"] + list(ver)]]})
+            elif rng.random() < 0.7:  # a file of the first version that starts with some other info line
+                infos = [sp for sp in pool if sp["kind"].startswith("info:")]
+                if infos:
+                    specs.append(rng.choice(infos))
+            for k, sp in enumerate(chosen):
+                sp = json.loads(json.dumps(sp))
+                for fld in sp["fields"]:
+                    if fld[1] in ("Anchor", "Id") and fld[2][0] == "str":
+                        fld[2][1] = "%su%d" % (fld[2][1], k)  # unique ids (duplicate ids are another matter: validate_match_ids)
+                specs.append(sp)
+            rep = {"kind": "file", "ver": list(ver), "lines": specs}
+            try:
+                objs = [construct(sp["kind"], tuple(sp["ver"]), {(o, n): to_py(t) for o, n, t in sp["fields"]}) for sp in specs]
+                for _ in range(rng.choice([0, 1, 2])):  # the same line twice
+                    objs.insert(rng.randint(1, len(objs)), rng.choice(objs))
+                path = os.path.join(ctx.work, "c07_file_%s_%d.match" % (vname(ver), fno))
+                B.MatchFile(objs).write(path)
+                texts = open(path).read().split("\n")[:-1]
+                layout = list(objs)
+                for _ in range(rng.choice([0, 1, 3])):  # empty lines (never the first line)
+                    k = rng.randint(1, len(texts))
+                    texts.insert(k, "")
+                    layout.insert(k, None)
+                with open(path, "w") as f:
+                    f.write("\n".join(texts) + "\n")
+            except Exception as e:
+                ctx.violation("a match file of version %s cannot be written: %r" % (ver, e), rep)
+                continue
+            ctx.evaluations += 1
+            ctx.count("files:%s" % ".".join(map(str, ver)))
+            ctx.count("files:lines", len(texts))
+            if not with_version_line:
+                ctx.count("files:0.1.0_without_version_line")
+            ctx.nontrivial(("file", json.dumps(texts)))
+            try:
+                with warnings.catch_warnings():
+                    warnings.simplefilter("ignore")
+                    got_version = quiet_call(IM.get_version, texts[0])
+                    mf = quiet_call(IM.load_matchfile, path)
+                got = list(mf.lines)
+            except Exception as e:
+                ctx.violation("load_matchfile raises on a file of version %s written by MatchFile.write (first line %r): %r" % (ver, texts[0], e),
+                              dict(rep, texts=texts))
+                continue
+            finally:
+                try:
+                    os.remove(path)
+                except OSError:
+                    pass
+            want = expected_lines(layout)
+            bad = None
+            try:  # the order of the lines of a file is not what this property is about: compare line by line, whatever the order
+                by_text = {}
+                for g in got:
+                    by_text.setdefault(g.matchline, []).append(g)
+                got_sorted = [by_text[w.matchline].pop(0) if by_text.get(w.matchline) else None for w in want]
+                extra = [g for gs in by_text.values() for g in gs]
+            except Exception as e:
+                got_sorted, extra = [None] * len(want), []
+                bad = "a line object read from the file cannot be written: %r" % (e,)
+            if bad:
+                pass
+            elif tuple(got_version) != ver:
+                bad = "version detected from the first line %r is %s, the file has version %s" % (texts[0], tuple(got_version), ver)
+            elif None in got_sorted or extra:
+                k = got_sorted.index(None) if None in got_sorted else None
+                bad = ("%d distinct lines written, %d line objects read; " % (len(want), len(got))) + (
+                    "line %r is not read back with this text (it is dropped or comes back as another line)" % want[k].matchline if k is not None
+                    else "line %r was not written" % extra[0].matchline)
+            else:
+                got = got_sorted
+                for w, g in zip(want, got):
+                    if type(g) is not type(w) or tuple(g.version) != ver:
+                        bad = "line %r is read as %s of version %s, written as %s" % (w.matchline, type(g).__name__, tuple(g.version), type(w).__name__)
+                        break
+                    if g.matchline != w.matchline:
+                        bad = "line %r is read and written again as %r" % (w.matchline, g.matchline)
+                        break
+            if bad:
+                ctx.violation("match file of version %s: %s" % (".".join(map(str, ver)), bad), dict(rep, texts=texts))
+                continue
+            methods = IM.FROM_MATCHLINE_METHODSV1 if V >= U.Version(1, 0, 0) else IM.FROM_MATCHLINE_METHODSV0
+            classes = [m.__self__ for m in methods]
+            try:
+                kinds = [classes.index(type(g)) for g in got]
+            except ValueError:
+                continue
+            terms.append("(%s, %s, %s)" % (clist(cstr(t) for t in texts), c_version(got_version), clist(cnat(k) for k in kinds)))
+            kept.append(dict(rep, texts=texts, what="file_model"))
+    failing = [] if not terms else ctx.coq_failing("files", "From PV Require Import Model.C07 Model.C07_Disp Gen.C07_Schemas Gen.C07_Parsers.", "", terms,
+                              "file_check key_tab version_pat old_version_pat version_infos parser_table", shard=40)
+    ctx.obligation("correspondence: model load_lines (version from the first line, empty and repeated lines dropped, every line dispatched over the "
+                   "ordered parser list of that version) = load_matchfile on %d written files" % len(terms), not failing, failing[:5])
+    for i in failing[:3]:
+        ctx.violation("model and implementation disagree on which lines of a file are read by which parser", kept[i])
+
+
+VERSION_TEXTS = ["1.0.0", "0.5.0", "0.1.0", "5.0", "1.0", "0.3", "10.20.30", "1.2.3.4", "1.2.3x", "1.0.0)", "x1.2.3", " 1.2.3", "01.02.03", "1.2", "1", "",
+                 "1..2", ".1.2", "1.2.", "1.2.x", "a.b.c", "1,2,3", "0.0.0", "12", "3.", "1.0.0 ", "2.0rc1"]
+
+
+def run_versions(ctx, info_texts):
+    """interpret_version on version texts; get_version on first lines (every generated info line, version lines
+    of all shapes, lines that are no info lines)."""
+    L0, L1, U, B, IM = mods()
+    rng = ctx.rng
+    texts = list(VERSION_TEXTS)
+    for _ in range(60 if ctx.tier == "quick" else 1500):
+        a, b, c = (rng.choice([0, 1, 2, 5, 10, rng.randint(0, 99), rng.randint(0, 10 ** 6)]) for _ in range(3))
+        r = rng.random()
+        texts.append("%d.%d.%d" % (a, b, c) if r < 0.5 else "%d.%d" % (b, c) if r < 0.7 else
+                     "%d.%d.%d%s" % (a, b, c, rng.choice(["a", ".7", " ", "-rc", ")"])) if r < 0.85 else
+                     "%s%d.%d" % (rng.choice(["v", " ", "."]), a, b))
+    terms, kept = [], []
+    for t in texts:
+        try:
+            v = U.interpret_version(t)
+            obs = tuple(int(x) for x in v)
+        except ValueError:
+            obs = None
+        except Exception as e:
+            ctx.violation("interpret_version(%r) raises %r" % (t, e), {"kind": "version_text", "text": t})
+            continue
+        ctx.evaluations += 1
+        m = re.fullmatch(r"(\d+)\.(\d+)\.(\d+)", t)
+        m2 = re.fullmatch(r"(\d+)\.(\d+)", t)
+        want = tuple(int(x) for x in m.groups()) if m else ((0,) + tuple(int(x) for x in m2.groups()) if m2 else "any")
+        if want != "any" and obs != want:
+            ctx.count("versions:oracle_complaints")
+            if ctx.counts["versions:oracle_complaints"] <= 5:
+                ctx.violation("interpret_version(%r) = %r, expected %r" % (t, obs, want), {"kind": "version_text", "text": t})
+            continue
+        if m and U.format_version(U.Version(*obs)) != "%d.%d.%d" % obs:
+            ctx.violation("format_version(%r) = %r" % (obs, U.format_version(U.Version(*obs))), {"kind": "version_text", "text": t})
+            continue
+        ctx.nontrivial(("vtext", t))
+        terms.append("(%s, %s)" % (cstr(t), copt(obs, c_version)))
+        kept.append({"kind": "version_text", "text": t, "what": "model", "in_spec": want != "any"})
+    failing = [] if not terms else ctx.coq_failing("iver", "From PV Require Import Model.C07 Model.C07_Disp Gen.C07_Parsers.", "", terms,
+                              "interpret_version_check version_pat old_version_pat")
+    ctx.obligation("correspondence: model interpret_version (the two reflected patterns, matched at the start, greedy digit groups) = "
+                   "matchfile_utils.interpret_version on %d texts (canonical, pre-1.0 form, trailing text, malformed)" % len(terms), not failing, failing[:5])
+    for i in failing[:3]:
+        if kept[i]["in_spec"]:  # on malformed texts a disagreement is model drift (failed obligation), not a violation
+            ctx.violation("model and implementation disagree on interpret_version(%r)" % kept[i]["text"], kept[i])
+    # get_version
+    firsts = []
+    for ver in V0S + [V1]:
+        firsts.append(("info(matchFileVersion,%d.%d.%d)." % ver, ver))
+        firsts.append(("info(matchFileVersion,%d.%d)." % ver[1:], (0,) + ver[1:]))
+    firsts += [("", (0, 1, 0))]
+    firsts += [(t, None) for t in info_texts]
+    terms, kept = [], []
+    for t, want in firsts:
+        try:
+            got = tuple(int(x) for x in quiet_call(IM.get_version, t))
+        except Exception as e:
+            ctx.count("get_version:oracle_complaints")
+            if ctx.counts["get_version:oracle_complaints"] <= 5:
+                ctx.violation("get_version(%r) raises %r (a first line that is no version line means version 0.1.0)" % (t, e), {"kind": "first_line", "text": t})
+            continue
+        ctx.evaluations += 1
+        if want is None:
+            m = re.fullmatch(r"info\(matchFileVersion,(\d+)\.(\d+)\.(\d+)\)\.", t)
+            want = tuple(int(x) for x in m.groups()) if m else (0, 1, 0)
+        if got != want:
+            ctx.count("get_version:oracle_complaints")
+            if ctx.counts["get_version:oracle_complaints"] <= 5:
+                ctx.violation("get_version(%r) = %s, expected %s" % (t, got, want), {"kind": "first_line", "text": t})
+            continue
+        ctx.nontrivial(("first", t))
+        ctx.count("get_version:version_line" if "matchFileVersion" in t else "get_version:other_first_line")
+        terms.append("(%s, %s)" % (cstr(t), c_version(got)))
+        kept.append({"kind": "first_line", "text": t, "what": "model"})
+    failing = [] if not terms else ctx.coq_failing("getver", "From PV Require Import Model.C07 Model.C07_Disp Gen.C07_Parsers.", "", terms,
+                              "get_version_check version_pat old_version_pat version_infos", shard=1500)
+    ctx.obligation("correspondence: model get_version = importmatch.get_version on %d first lines (version lines of every version and shape, every "
+                   "generated info line, other lines)" % len(terms), not failing, failing[:5])
+    for i in failing[:3]:
+        ctx.violation("model and implementation disagree on get_version(%r)" % kept[i]["text"], kept[i])
 
 
 # ----------------------------------------------------------------------------
@@ -1011,6 +1609,51 @@ def c_plain(v):
     raise Mismatch("no plain value for %r" % (v,))
 
 
+UP_TERMS, UP_KEPT = [], []
+
+
+def c_any(v):
+    """Coq `value` of a field value of an info / meta / scoreprop line by its Python type (a float as the
+    unconstrained formatter of the old versions writes it)."""
+    L0, L1, U, B, IM = mods()
+    if isinstance(v, U.MatchTempoIndication):
+        return "(VStr %s)" % cstr(v.value)
+    if isinstance(v, U.Version):
+        return "(VVersion %s %s %s)" % (cz(v[0]), cz(v[1]), cz(v[2]))
+    if isinstance(v, U.MatchKeySignature):
+        return "(VKey %s %s)" % (c_key1(v), clist([c_key1(o) for o in v.other_components]))
+    if isinstance(v, U.MatchTimeSignature):
+        return "(VTime %s %s %s)" % (cz(int(v.numerator)), cz(int(v.denominator)), clist([c_frac(o) for o in (v.other_components or [])]))
+    if isinstance(v, float):
+        if v != v or v in (float("inf"), float("-inf")):
+            raise Mismatch("non-finite float")
+        return "(VStr %s)" % cstr(repr(v))
+    if isinstance(v, list) and v and all(isinstance(x, int) and not isinstance(x, bool) for x in v):
+        return "(VListInt %s)" % clist([cz(x) for x in v])
+    return c_plain(v)
+
+
+def up_observation(ctx, spec, obj, q):
+    """Coq case for check_up: the old info / meta line and what to_v1 made of it (q None: it raised)."""
+    base, _, attr = spec["kind"].partition(":")
+    try:
+        if q is None:
+            obs = "None"
+        elif type(q).__name__ == "MatchInfo":
+            obs = "(Some (L1Info %s (Some %s)))" % (cstr(q.Attribute), c_any(q.Value))
+        else:
+            obs = "(Some (L1ScoreProp %s (Some %s) %s %s %s %s))" % (cstr(q.Attribute), c_any(q.Value), cz(int(q.Measure)), cz(int(q.Beat)),
+                                                                   c_frac(q.Offset), c_any(q.TimeInBeats))
+        meta = base == "meta"
+        term = "(%s, %s, %s, (%s, %s), %s)" % (cbool(meta), cstr(obj.Attribute), c_any(obj.Value),
+                                               cz(int(obj.Measure)) if meta else "0", c_any(obj.TimeInBeats) if meta else "VNone", obs)
+    except (Mismatch, AttributeError, TypeError, ValueError) as e:
+        ctx.count("to_v1:info_meta_model_skipped(value of unexpected shape)")
+        return
+    UP_TERMS.append(term)
+    UP_KEPT.append(dict(spec, what="to_v1_model"))
+
+
 def run_to_v1(ctx, spec, obj, pitch_terms, pitch_kept):
     L0, L1, U, B, IM = mods()
     kind = spec["kind"]
@@ -1026,7 +1669,11 @@ def run_to_v1(ctx, spec, obj, pitch_terms, pitch_kept):
     rep = dict(spec, what="to_v1")
     try:
         q = quiet_call(L1.to_v1, obj)
+        if base in ("info", "meta"):
+            up_observation(ctx, spec, obj, q)
     except B.MatchError as e:
+        if base in ("info", "meta"):
+            up_observation(ctx, spec, obj, None)
         if expect is None:
             ctx.count("to_v1:no_equivalent_in_1.0.0")
             return
@@ -1076,6 +1723,8 @@ def run_to_v1(ctx, spec, obj, pitch_terms, pitch_kept):
         same("Value", obj.Value, q.Value)
         same("Measure", obj.Measure, q.Measure)
         same("TimeInBeats", obj.TimeInBeats, q.TimeInBeats)
+    if base in ("info", "meta"):  # independent of the equivalence tables: the two documented renamings change letter case only
+        same("Attribute (up to letter case)", attr.lower(), str(q.Attribute).lower())
     if base == "info":
         if expect == "MatchInfo":
             same("Attribute", L1.INFO_ATTRIBUTE_EQUIVALENCES.get(attr, attr), q.Attribute)
@@ -1743,15 +2392,25 @@ def run(ctx):
                 "sum of durations and every distinct duration program (2-4 durations from text a, a/b, a/b/c with 1-3 additive components or "
                 "from numbers, then 4-9 operations + / int + / radd / sum / ==, float, str re-using earlier operands and results on either "
                 "side, x + x included; 60% musical values within the bound, 20% general small values whose lcm forms often leave the bound, 20% with numerators/denominators 1020..1030 and up to 5000; after every step every live object "
-                "is inspected).")
+                "is inspected).  Dispatch: every generated line that is a line of a file is also read by importmatch.parse_matchline over the ordered "
+                "parser list of its version, plus a small-scope sweep: every kind x version x every text by which some parser recognises its kind "
+                "(insertion-, hammer_bounce-, trailing_played_note-, -deletion., -trailing_score_note., -no_played_note.) and other words of the format "
+                "(note, snote, -note, trill, ornament, ...) put inside an identifier of the line; 6% of all identifiers hold such a word.  Files: per "
+                "version 2 (quick) / 30 files written with MatchFile.write and read with load_matchfile (version line; 0.1.0 every second file "
+                "without; unique ids; repeated and empty lines).  Versions: interpret_version on canonical, pre-1.0 and malformed texts, "
+                "get_version on version lines of every version in both spellings, on every generated info line and on the empty line.")
     ctx.trusted = ["Coq 8.16.1 kernel incl. vm_compute", "reflector + generators + Python<->Coq value printers in harness/props/c07.py",
                    "Python re / str.format (the model's scanner is validated against them on generated lines only)",
-                   "determinism of the tabulated key-signature functions"]
+                   "determinism of the tabulated key-signature functions",
+                   "the fail-closed reader of the regular expressions (regex_items) and the hand-written structure in which every from_matchline "
+                   "method combines its patterns (parser_spec); both validated by the dispatch correspondence only"]
     ctx.assumptions = ["field texts are ASCII; strings are non-empty, stripped and free of the separators of their field (fields_ok)",
                        "floats of fixed-point fields are fed as the double nearest to a d-decimal number when 'equal fields' is demanded; "
                        "other floats (decimal boundaries, binary ties) are checked for the rounded value and the fixpoint only",
                        "bound_integers is modelled with exact rationals; cases within 1e-6 of a rounding/argmin tie are counted and not compared with the model",
-                       "negative durations are outside the format (digits only)"]
+                       "negative durations are outside the format (digits only)",
+                       "identifiers hold no separators (comma, parentheses, brackets) and info strings hold no complete line of another kind; the order of "
+                       "the lines of a file is not compared; only the six format versions of the tables are claimed"]
     ctx.matchers["C07-K1"] = lambda r: isinstance(r, dict) and r.get("kind") == "frac_prog" and r.get("what") == "empty_text"
     S, rows = gen()
     for (kind, ver), (nm, elems, fields) in sorted(S.items()):
@@ -1759,16 +2418,22 @@ def run(ctx):
         if unk:
             ctx.violation("formatter of field(s) %s of %s %s behaves like no codec of the model" % (unk, kind, ver),
                           {"kind": kind, "ver": list(ver), "what": "reflect", "fields": unk}, no_input=True)
-    ok, why = ctx.coq_props(expect_min=42)
+    for kind, ver in expected_catalogue():
+        if (kind, ver) not in S:
+            ctx.violation("the line kind %s of format version %s is gone from the tables of the library" % (kind, ".".join(map(str, ver))),
+                          {"kind": kind, "ver": list(ver), "what": "catalogue"}, no_input=True)
+    ctx.log("reflection done")
+    ok, why = ctx.coq_props(expect_min=68)
+    ctx.log("proofs checked")
     key_oracle(ctx, rows)
     rng = ctx.rng
     per = 12 if ctx.tier == "quick" else 260
     specs = []
     cat = sorted(S.keys())
     for kind, ver in cat:
-        for _ in range(per):
+        for nth in range(per):
             try:
-                specs.append(g_line(rng, kind, ver))
+                specs.append(dict(g_line(rng, kind, ver), nth=nth))
             except ValueError as e:
                 ctx.count("generator:no_values_for_schema %s %s" % (kind, ver))
                 break
@@ -1790,10 +2455,16 @@ def run(ctx):
             elif t[0] == "none":
                 ctx.count("gen:none(%s)" % n_)
     terms, kept, pterms, pkept = [], [], [], []
+    del DISP_TERMS[:], DISP_KEPT[:], UP_TERMS[:], UP_KEPT[:]
     nviol0 = len(ctx.violations)
-    for spec in specs:
+    mspecs = marker_specs(rng, ctx.tier != "quick")
+    good = []
+    for spec in specs + mspecs:
         base = spec["kind"].partition(":")[0]
-        ctx.count("%s@%s" % (base, ".".join(map(str, spec["ver"]))))
+        if "marker" in spec:
+            ctx.count("marker_in_identifier:%s" % spec["marker"])
+        else:
+            ctx.count("%s@%s" % (base, ".".join(map(str, spec["ver"]))))
         before = len(ctx.violations) + sum(ctx.known_hits.values())
         obj = run_line(ctx, spec, terms, kept)
         ctx.nontrivial(json.dumps(spec, sort_keys=True))
@@ -1803,20 +2474,24 @@ def run(ctx):
         q = None
         if obj is not None and tuple(spec["ver"]) != V1 and clean():
             q = run_to_v1(ctx, spec, obj, pterms, pkept)
-        if obj is not None and clean() and getattr(obj, "_c07_case", None) is not None:
+        if obj is not None and clean() and getattr(obj, "_c07_case", None) is not None and "marker" not in spec:
             run_uses(ctx, spec, obj, q)
+        if obj is not None and clean():
+            good.append(spec)
     for s in kept[:3]:
         ctx.sample(s)
+    ctx.log("lines run on the implementation: %d (+ %d with markers)" % (len(specs), len(mspecs)))
     if not ok:
         if len(ctx.violations) == nviol0:
             ctx.violation("proof obligations of Props/C07.v no longer check: " + why, {"theorem_or_build": why}, no_input=True)
         return
-    terms = ["(%s, %s, %s, %s, %s)" % (a, b, c, d, e if e is not None else "[]") for a, b, c, d, e in terms]
+    terms = ["(%s, %s, %s, %s, %s)" % (a, b, c, d, e if e is not None else "(@nil string)") for a, b, c, d, e in terms]
     failing = [] if not terms else ctx.coq_failing("lines", "From PV Require Import Model.C07 Gen.C07_Schemas.", "", terms, "check_case_hist key_tab", shard=300)
     ctx.obligation("correspondence: model format_line / parse_line / round trip / fields_ok / second text / text after read-only uses of the fields "
                    "= implementation on %d generated lines of %d schemas" % (len(terms), len(S)), not failing, failing[:5])
     for i in failing[:5]:
         ctx.violation("model and implementation disagree on line %r" % kept[i]["text"], dict(kept[i], what="model"))
+    ctx.log("check_case_hist done")
     v1terms = [t for t in pterms if isinstance(t, tuple)]
     pterms = [t for t in pterms if not isinstance(t, tuple)]
     failing = [] if not v1terms else ctx.coq_failing("tov1", "From PV Require Import Model.C07.", "", [t[1] for t in v1terms], "check_to_v1")
@@ -1829,7 +2504,25 @@ def run(ctx):
     ctx.obligation("correspondence: to_v1 MIDI pitch = model midi_pitch on %d converted notes" % len(pterms), not failing, failing[:5])
     for i in failing[:5]:
         ctx.violation("to_v1 pitch differs from the model", pkept[i])
+    failing = [] if not UP_TERMS else ctx.coq_failing("up", "From PV Require Import Model.C07 Model.C07_Up Gen.C07_Parsers.", "", UP_TERMS, "check_up up_tabs", shard=1200)
+    ctx.obligation("correspondence: to_v1 of %d info and meta lines of 0.1.0-0.5.0 = model info_to_v1 / meta_to_v1 (kind, attribute after renaming, "
+                   "value, measure, beat, offset, time; lines without an equivalent in 1.0.0 raise)" % len(UP_TERMS), not failing, failing[:5])
+    for i in failing[:5]:
+        ctx.violation("to_v1 of an info / meta line differs from the model (kind, attribute or a carried-over value)", UP_KEPT[i])
+    ctx.log("to_v1 correspondences done")
+    failing = [] if not DISP_TERMS else ctx.coq_failing("disp", "From PV Require Import Model.C07 Model.C07_Disp Gen.C07_Schemas Gen.C07_Parsers.", "", DISP_TERMS,
+                              "disp_check key_tab parser_table", shard=600)
+    ctx.obligation("correspondence: model dispatch (re.search of every pattern as written, independent searches for the parts of a line, the ordered "
+                   "parser list of the version, decoders) chooses the same method and the same field values as importmatch.parse_matchline on %d "
+                   "lines (incl. %d with a kind identifier or another word of the format inside an identifier)" % (len(DISP_TERMS), len(mspecs)), not failing, failing[:5])
+    for i in failing[:5]:
+        ctx.violation("model and implementation disagree on which parser of the ordered list reads line %r" % DISP_KEPT[i]["text"], DISP_KEPT[i])
+    ctx.log("line correspondences done")
+    run_files(ctx, good, 2 if ctx.tier == "quick" else 30)
+    run_versions(ctx, sorted(set(k["text"] for k in kept if k["kind"].startswith("info:")))[:400 if ctx.tier == "quick" else 4000])
+    ctx.log("files and versions done")
     run_fracs(ctx, 600 if ctx.tier == "quick" else 12000)
+    ctx.log("duration sums done")
     run_frac_programs(ctx, 300 if ctx.tier == "quick" else 6000)
     ctx.extra["class_x_version_coverage"] = {k: v for k, v in sorted(ctx.counts.items()) if "@" in k}
     ctx.extra["schemas_reflected"] = len(S)
@@ -1854,6 +2547,12 @@ def replay(obj):
             print("text 2 :", p.matchline)
         except Exception as e:
             print("parse failed:", repr(e))
+        if r["kind"].partition(":")[0] not in FILE_LEVEL_EXCLUDED:
+            try:
+                obs = observe_dispatch(ver, t)
+                print("file level (parse_matchline over the ordered list):", "None" if obs is None else "%s (method %d) -> %s" % (type(obs[1]).__name__, obs[0], obs[1].matchline))
+            except Exception as e:
+                print("parse_matchline raises:", repr(e))
         if ver != V1:
             try:
                 print("to_v1  :", L1.to_v1(o).matchline)
@@ -1871,6 +2570,43 @@ def replay(obj):
                         a + b
             print("after sums of the durations: generated object writes", o.matchline)
             print("                             parsed object writes   ", p.matchline)
+    elif r.get("kind") == "file":
+        import os
+        import tempfile
+        import warnings
+        texts = r.get("texts")
+        if texts is None:
+            texts = [construct(sp["kind"], tuple(sp["ver"]), {(o, n): to_py(t) for o, n, t in sp["fields"]}).matchline for sp in r["lines"]]
+        d = tempfile.mkdtemp(prefix="c07_replay_", dir=os.environ.get("VERIF_WORK", "/verif/.work"))
+        path = os.path.join(d, "replay.match")
+        with open(path, "w") as f:
+            f.write("\n".join(texts) + "\n")
+        print("file of version %s, %d lines; first line: %r" % (r["ver"], len(texts), texts[0]))
+        try:
+            print("get_version(first line):", tuple(IM.get_version(texts[0])))
+            with warnings.catch_warnings():
+                warnings.simplefilter("ignore")
+                mf = IM.load_matchfile(path)
+            got = {}
+            for g in mf.lines:
+                got.setdefault(g.matchline, []).append(type(g).__name__)
+            for t in dict.fromkeys(x for x in texts if x):
+                print("  %-28s %s" % (",".join(got.get(t, ["-- NOT READ BACK WITH THIS TEXT --"])), t))
+        except Exception as e:
+            print("load_matchfile raises:", repr(e))
+        finally:
+            os.remove(path)
+            os.rmdir(d)
+    elif r.get("kind") == "first_line":
+        try:
+            print("get_version(%r) = %s" % (r["text"], tuple(IM.get_version(r["text"]))))
+        except Exception as e:
+            print("get_version(%r) raises %r" % (r["text"], e))
+    elif r.get("kind") == "version_text":
+        try:
+            print("interpret_version(%r) = %s" % (r["text"], tuple(U.interpret_version(r["text"]))))
+        except Exception as e:
+            print("interpret_version(%r) raises %r" % (r["text"], e))
     elif r.get("kind") == "frac_prog":
         F = U.FractionalSymbolicDuration
         env = {}
